@@ -19,7 +19,7 @@ EXPLANATION = (
     "partitioner, NUMA hints, the shared low-priority queue.")
 ASSUMPTIONS = ["thread_pool_base::create_work is implemented by scheduled_thread_pool only", "hints are honoured by the queue selection decided in C01.R7/C19.R4"]
 THOROUGH_CONFIGS = [["-UNDEBUG", "-DPIKA_DEBUG"]]
-FLOORS = {"C10.R1": 2, "C10.R2": 5, "C10.R3": 4, "C10.R4": 8, "C10.R5": 8, "C10.R6": 4, "C10.R7": 1, "C10.R8": 4, "C10.R9": 4}
+FLOORS = {"C10.R1": 2, "C10.R2": 5, "C10.R3": 4, "C10.R4": 8, "C10.R5": 8, "C10.R6": 4, "C10.R7": 1, "C10.R8": 4, "C10.R9": 4, "C10.R10": 2}
 
 SETV = "pika::execution::experimental::set_value"
 SETE = "pika::execution::experimental::set_error"
@@ -58,6 +58,8 @@ def run(rep, tier):
     rep.rule("C10.R3", "K6: schedule_from completes downstream with values only from scheduler_sender_receiver::set_value")
     rep.rule("C10.R4", "K7/K6: static policies mask stealing; cross-queue access only under enable_stealing")
     rep.rule("C10.R6", "K6 (who may advertise a completion scheduler): a sender adaptor forwards its predecessor's environment unchanged only if its receiver completes downstream inside the predecessor's completion; an adaptor whose completion members start another operation (let_value, let_error: the operation returned by the user's callable; schedule_from: the scheduler's) completes wherever that operation completes and must not advertise the predecessor's completion scheduler (bulk's pool customisation trusts it)")
+    rep.rule("C10.R10", "K7 (evaluated): the tasks thread-pool bulk spawns carry the scheduler's own hint when it has one (with_hint(sched, k) | bulk(..): every chunk task is sent "
+             "to worker k) and the hint of 'their' worker only when the scheduler has none")
     rep.rule("C10.R9", "K7 (evaluated with a concrete hint): in create_thread / schedule_thread / schedule_thread_last of the queue schedulers a hint of mode 'thread' "
              "for a worker number below the number of queues is what select_active_pu is asked for (the round-robin counter and the modulo apply only to an absent "
              "or out-of-range hint) - otherwise a hinted task of a static pool is queued on another worker")
@@ -453,6 +455,7 @@ def run(rep, tier):
 
     # ---- R9: a worker hint reaches the queue selection unchanged (evaluated)
     hint_reaches_selection(rep)
+    bulk_hint_rule(rep)
 
     # ---- R7: under a static policy every worker owns a high-priority queue.  The priority schedulers re-queue a task
     # that yields with boosted priority (yield_k / pending_boost - normal-priority tasks included) on high-priority queue
@@ -648,3 +651,69 @@ def hint_reaches_selection(rep):
             rep.ok("C10.R9", f, "a valid worker hint is what select_active_pu is asked for")
     if n < 4:
         raise AnalysisBroken("C10.R9 evaluated only %d scheduler entry points" % n)
+
+
+def bulk_hint_rule(rep):
+    from engine.kinds import interp, eval_tree, Unknown
+    B = facts(rep, driver("c11_bulk.cpp"), [r"^pika::thread_pool_bulk_detail::operation_state::bulk_receiver::do_work_task$"])
+    fs = [f for f in B.find(r"bulk_receiver::do_work_task$") if not f.pattern and f.parent == -1]
+    if not fs:
+        raise AnalysisBroken("thread-pool bulk: do_work_task not instantiated")
+    fn = fs[0]
+    wt = [p_["name"] for p_ in fn.params if "int" in str(p_.get("type", "")) and "chunk" not in p_["name"]]
+    wname = fn.params[-1]["name"] if fn.params else None
+
+    def model(sched_hint):
+        def h(e, env):
+            if e.get("k") == "call":
+                cs = callee_short(e)
+                if cs == "get_hint":
+                    return sched_hint
+                if cs == "empty" and "queue" in P(e.get("recv") or {}):
+                    return False
+                if e.get("op") == "==" and len(e.get("args") or []) == 2:
+                    return eval_tree(e["args"][0], env) == eval_tree(e["args"][1], env)
+                if e.get("op") == "!=" and len(e.get("args") or []) == 2:
+                    return eval_tree(e["args"][0], env) != eval_tree(e["args"][1], env)
+                raise Unknown(T(e))
+            if "thread_schedule_hint" in str(e.get("rec", "")) or "thread_schedule_hint" in str(e.get("type", "")):
+                a = e.get("args") or []
+                if not a:
+                    return "EMPTY"
+                if len(a) == 1 and strip(a[0]).get("k") in ("construct", "var", "call"):
+                    return eval_tree(a[0], env)      # copy / move
+                vals = []
+                for x in a:
+                    try:
+                        vals.append(eval_tree(x, env))
+                    except Unknown:
+                        vals.append("?")
+                return ("HINT",) + tuple(vals[-1:])
+            raise Unknown(T(e))
+        return h
+    is_data = lambda e: e.get("k") == "ctor" and "thread_init_data" in str(e.get("rec", ""))
+    for sched_hint, want in (("EMPTY", ("HINT", 3)), (("HINT", 1), ("HINT", 1))):
+        env = {"$call": model(sched_hint)}
+        if wname:
+            env[wname] = 3
+        res = interp(fn, env, until=is_data)
+        stops = [(e_, ev) for end, e_, evs, ev in res if end == "stop"]
+        if not stops:
+            raise AnalysisBroken("thread-pool bulk do_work_task: construction of the task's thread_init_data not reached in the evaluation")
+        got = set()
+        for e_, ev in stops:
+            hv = None
+            for a in ev.get("args") or []:
+                try:
+                    v = eval_tree(a, e_)
+                except Unknown:
+                    continue
+                if v == "EMPTY" or (isinstance(v, tuple) and v and v[0] == "HINT"):
+                    hv = v
+            got.add(hv)
+        if got == {want}:
+            rep.ok("C10.R10", fn, "scheduler hint %s -> the spawned chunk task carries %s" % (sched_hint, want))
+        else:
+            rep.bad("C10.R10", fn, fn.loc, "bulk-hint:%s" % ("none" if sched_hint == "EMPTY" else "given"), "thread-pool bulk spawns the chunk task of worker 3 with hint %s when the scheduler's own "
+                    "hint is %s (expected %s): %s" % (sorted(map(str, got)), sched_hint, want, "a bulk on with_hint(sched, k) of a static pool runs on every worker instead of worker k"
+                                                       if sched_hint != "EMPTY" else "the chunk tasks are not sent to their workers"))
